@@ -108,8 +108,14 @@ def classify(impl, op, code):
     k = op[0]
     if k == 'setvaluedt':
         return 'value-datatype-object'
-    if k == 'setvalue' and isinstance(op[1], int) and 0 <= op[1] < len(impl.I) and isinstance(impl.I[op[1]], Segment):
-        return 'segment-value'
+    if k == 'setvalue' and isinstance(op[1], int) and 0 <= op[1] < len(impl.I):
+        t = impl.I[op[1]]
+        if isinstance(t, Segment):
+            return 'segment-value'
+        if t.classname in ('Message', 'Group'):
+            return 'message-value'
+        if t.classname == 'Field' and t.name in ('MSH_1', 'MSH_2'):
+            return 'msh-delimiter-field-value'
     if k in ('setvaluechain', 'setvalue', 'setvaluenone'):
         return 'value-assignment'
     if k == 'setdatatype':
@@ -254,6 +260,28 @@ def main(argv=None):
     # assignment of a segment is outside the Coq model's operation alphabet, so these histories are judged by the
     # oracle only - a refused value (too long / unknown component / subcomponent below a base datatype under STRICT,
     # another segment's text) leaves children AND encodings (both trailing_children settings) as they were
+    # free-standing MSH_1 / MSH_2 fields (own value setter; MSH is outside the model): a value refused under STRICT
+    # leaves the field as it was;  message.value = text refused on a version with the optional truncation character
+    # (2.7 onwards) leaves the message - its MSH-1 / MSH-2 included - as it was
+    stats['msh_field_value_histories'] = stats['message_value_histories'] = 0
+    for v in versions:
+        for lvl in (H.STRICT, H.TOLERANT):
+            for fld, text in (('MSH_2', '^~\\&'), ('MSH_2', '^~\\&#'), ('MSH_1', '|'), ('MSH_2', '^~'), ('MSH_1', '||')):
+                for ops in ([['newfield', lvl, fld, None], ['setvalue', 0, text], ['lenlist', 0], ['setvalue', 0, text]],
+                            [['newseg', lvl, 'MSH'], ['addhelper', 0, fld], ['setvalue', 1, text], ['toer7', 0]]):
+                    stats['msh_field_value_histories'] += 1
+                    oracle_on_history(run, v, ops, stats)
+    for v in (['2.7', '2.8'] if run.thorough else ['2.7']):
+        for lvl in (H.STRICT, H.TOLERANT):
+            for msh2 in ('^~\\&', '^~\\&#'):
+                for bad in ('EVN||not-a-date', 'EVN||20200102\rPID|||1||%s' % ('X' * 3000), 'PID|1'):
+                    text = 'MSH|%s|||||20200102||ADT^A01^ADT_A01|ID2|P|%s\r%s\rPID|||1||DOE^JOHN' % (msh2, v, bad)
+                    ops = [['newmsg', lvl, 'ADT_A01', None], ['setattr', 0, ['msh', 'msh_9'], ['t', 'ADT^A01^ADT_A01']],
+                           ['setattr', 0, ['msh', 'msh_10'], ['t', 'ID1']], ['setattr', 0, ['msh', 'msh_11'], ['t', 'P']],
+                           ['setattr', 0, ['evn', 'evn_2'], ['t', '20200101']], ['setattr', 0, ['pid', 'pid_5'], ['t', 'EVERYMAN^ADAM']],
+                           ['setvalue', 0, text], ['toer7', 0]]
+                    stats['message_value_histories'] += 1
+                    oracle_on_history(run, v, ops, stats)
     stats['segment_value_histories'] = stats['segment_value_rejected'] = 0
     for v in versions:
         lib = H.hl7apy.load_library(v)
@@ -323,6 +351,8 @@ def oracle_on_history(run, v, ops, stats=None):
             return
         if stats is not None and state['family'] == 'segment-value':
             stats['segment_value_rejected'] += 1
+        if stats is not None and state['family'] in ('message-value', 'msh-delimiter-field-value'):
+            stats[state['family'] + '-rejected'] = stats.get(state['family'] + '-rejected', 0) + 1
         after = [shape(x, impl.ec) for x in state['els']]
         if after != state['before']:
             report(run, state, after, state['family'], v, None, data[0], op, ops[:kk + 1], kk)
